@@ -3,6 +3,7 @@
 All data are built from generated values; nothing is read from disk here.
 """
 import logging
+import math
 import numpy as np
 
 logging.disable(logging.CRITICAL)
@@ -137,3 +138,149 @@ def reset_world():
     kc = KTableCache()
     kc.opacity_dict = {}
     kc._force_active = []
+
+
+# ---------------------------------------------------------------------------
+# worlds
+
+G_NEWTON = 6.6743e-11        # CODATA 2018
+RJUP = 71492000.0            # IAU 2015 nominal equatorial radius
+MJUP = 1.2668653e17 / G_NEWTON   # IAU nominal GM_J / G
+
+
+class World:
+    pass
+
+
+def table_arrays(spec, nwn):
+    """(Tgrid, Pgrid[Pa], xsec[P,T,wn] in cm2) from a strategies.table spec"""
+    Tg = np.cumsum([spec['T0']] + list(spec['dT']))
+    lP = np.cumsum([spec['lP0']] + list(spec['dlP']))
+    Pg = 10.0 ** lP
+    shape = (len(Pg), len(Tg), nwn)
+    if spec['mag'] == 'zero':
+        tab = np.zeros(shape)
+    else:
+        dpt = np.array(spec['dpt'], dtype=float).reshape(len(Pg), len(Tg))
+        dw = np.array(spec['dw'], dtype=float)[:nwn]
+        if len(dw) < nwn:
+            dw = np.resize(dw, nwn)
+        tab = 10.0 ** (spec['base'] + dpt[:, :, None] + dw[None, None, :])
+    return Tg, Pg, tab
+
+
+def layer_temperatures(tspec, nlayers):
+    if tspec['kind'] == 'iso':
+        return np.ones(nlayers) * tspec['T']
+    ctrl = np.array(tspec['T'], dtype=float)
+    x = np.linspace(0.0, 1.0, nlayers)
+    xc = np.linspace(0.0, 1.0, len(ctrl))
+    return np.interp(x, xc, ctrl)
+
+
+def build_world(w, ktables=False, kweights=None, mode='linear', wn_per_mol=None):
+    """Create every component of a synthetic world from the case dict `w` and
+    register its opacities in the (freshly reset) caches."""
+    from taurex.cache import OpacityCache, CIACache, GlobalCache
+    from taurex.cache.ktablecache import KTableCache
+    from taurex.data import Planet
+    from taurex.data.stellar import BlackbodyStar
+    from taurex.data.profiles.pressure import SimplePressureProfile
+    from taurex.data.profiles.temperature import Isothermal
+    from taurex.data.profiles.temperature.temparray import TemperatureArray
+    from taurex.data.profiles.chemistry import TaurexChemistry, ConstantGas
+    reset_world()
+    W = World()
+    W.case = w
+    nw = w['nwn']
+    W.wn = w['wn0'] + w['dwn'] * np.arange(nw)
+    W.tables = {}
+    if ktables:
+        GlobalCache()['opacity_method'] = 'ktables'
+    for i, g in enumerate(w['gases']):
+        if g['table'] is None:
+            continue
+        wn = W.wn if not wn_per_mol else wn_per_mol[g['mol']]
+        Tg, Pg, tab = table_arrays(g['table'], len(wn))
+        W.tables[g['mol']] = (Tg, Pg, tab, wn)
+        if ktables:
+            kw = np.asarray(kweights, dtype=float)
+            ktab = np.repeat(tab[..., None], len(kw), axis=-1)
+            KTableCache().add_opacity(SynthKTable(g['mol'], wn, Tg, Pg, ktab, kw, mode=mode))
+        else:
+            OpacityCache().add_opacity(SynthOpacity(g['mol'], wn, Tg, Pg, tab, mode=mode))
+    radius_m = w['radius'] * RJUP
+    W.Tlayers = layer_temperatures(w['temp'], w['nlayers'])
+    # keep the atmosphere gravitationally bound: if the isothermal estimate of its
+    # extent (H at the hottest layer with mu = 2 amu, times ln(10) per decade) exceeds
+    # 0.4 planet radii the surface gravity is raised to the value that bounds it
+    g = 10.0 ** w['logg']
+    g_needed = 1.380649e-23 * float(np.max(W.Tlayers)) / (2.0 * 1.6605390666e-27) * \
+        math.log(10.0) * w['decades'] / (0.4 * radius_m)
+    W.g_surface = max(g, g_needed)
+    W.gravity_raised = g_needed > g
+    mass_kg = W.g_surface * radius_m ** 2 / G_NEWTON
+    W.planet = Planet(planet_mass=mass_kg / MJUP, planet_radius=w['radius'])
+    W.star = BlackbodyStar(temperature=w['star_T'], radius=w['star_R'])
+    pmax = 10.0 ** w['lpmax']
+    pmin = 10.0 ** (w['lpmax'] - w['decades'])
+    W.pmin, W.pmax = pmin, pmax
+    W.pressure = SimplePressureProfile(nlayers=w['nlayers'], atm_min_pressure=pmin, atm_max_pressure=pmax)
+    if w['temp']['kind'] == 'iso':
+        W.temperature = Isothermal(T=w['temp']['T'])
+    else:
+        W.temperature = TemperatureArray(tp_array=W.Tlayers.copy())
+    fill = list(w['fill'])
+    ratio = list(w['ratio'])[:len(fill) - 1]
+    W.chemistry = TaurexChemistry(fill_gases=fill, ratio=ratio if len(fill) > 1 else 0.0)
+    for g in w['gases']:
+        if g['mol'] in fill:
+            continue
+        if g.get('logtop') is None:
+            W.chemistry.addGas(ConstantGas(g['mol'], mix_ratio=10.0 ** g['logmix']))
+        else:
+            from taurex.data.profiles.chemistry.gas.arraygas import ArrayGas
+            top = min(10.0 ** (g['logmix'] + g['logtop']), 0.2)
+            W.chemistry.addGas(ArrayGas(g['mol'], mix_ratio_array=[10.0 ** g['logmix'], top]))
+    W.cia_pair = None
+    if w.get('cia') is not None and 'CIA' in w.get('extras', []):
+        pair = '%s-%s' % (fill[0], fill[1] if len(fill) > 1 else fill[0])
+        Tg, _, tab = table_arrays(w['cia'], nw)
+        # collision-induced coefficients are ~1e-30 smaller than molecular cross-sections
+        W.cia_table = (Tg, tab[0] * 1e-30)
+        CIACache().add_cia(SynthCIA(pair, W.wn, Tg, W.cia_table[1]))
+        W.cia_pair = pair
+    return W
+
+
+def make_contributions(W, names=None):
+    from taurex.contributions import AbsorptionContribution, CIAContribution, \
+        RayleighContribution, SimpleCloudsContribution
+    w = W.case
+    names = names if names is not None else (['Absorption'] + list(w.get('extras', [])))
+    out = []
+    for n in names:
+        if n == 'Absorption':
+            out.append(AbsorptionContribution())
+        elif n == 'CIA':
+            if W.cia_pair is not None:
+                out.append(CIAContribution(cia_pairs=[W.cia_pair]))
+        elif n == 'Rayleigh':
+            out.append(RayleighContribution())
+        elif n == 'SimpleClouds':
+            lp = np.log10(W.pmin) + (0.5 + w['lpcloud'] / 2.0) * (np.log10(W.pmax) - np.log10(W.pmin))
+            out.append(SimpleCloudsContribution(clouds_pressure=10.0 ** lp))
+        else:
+            raise ValueError(n)
+    return out
+
+
+def make_model(W, kind='transmission', contribs=None, **kw):
+    from taurex.model import TransmissionModel, EmissionModel, DirectImageModel
+    klass = {'transmission': TransmissionModel, 'emission': EmissionModel, 'directimage': DirectImageModel}[kind]
+    m = klass(planet=W.planet, star=W.star, pressure_profile=W.pressure,
+              temperature_profile=W.temperature, chemistry=W.chemistry, **kw)
+    for c in (contribs if contribs is not None else make_contributions(W)):
+        m.add_contribution(c)
+    m.build()
+    return m
